@@ -206,7 +206,7 @@ class HttpProxyPlugin(HttpProtocolHandlerPlugin):
                     'SSLWantWriteError while trying to flush to server, will retry',
                 )
                 return False
-            except BrokenPipeError:
+            except (BrokenPipeError, ConnectionResetError):
                 # Server stopped receiving.  What it sent before, e.g. an
                 # early response, is still read and relayed to the client
                 # until it signals end of stream.
